@@ -244,6 +244,8 @@ def selections(cand, maxlen):
 
 
 def main(ctx):
+    # every lattice part once more under FP traps + warnings-as-errors (clean on the unchanged tree, see DESIGN section 0)
+    ctx.envstrict_all = True
     from esutil import numpy_util as nu
 
     cseed = int(ctx.seed)
